@@ -72,6 +72,7 @@ type Stack struct {
 	Ctx        context.Context
 	Cancel     context.CancelFunc
 	StdRules   *standardrules.Service
+	rulesStop  context.CancelFunc
 	Rules      rules.Service
 	Locker     locker.Service
 	Ruler      ruler.Service
@@ -222,7 +223,11 @@ func (s *Stack) openRules() error {
 	var err error
 	// The rules service gets its own never-cancelled context: closing is done explicitly
 	// (and synchronously) through CloseRules so that restarts are deterministic.
-	s.StdRules, err = standardrules.New(context.Background(),
+	// (Its context is cancelled right after the explicit close, so that the service's own watcher goroutine ends
+	// and the closed database can be garbage-collected.)
+	var rulesCtx context.Context
+	rulesCtx, s.rulesStop = context.WithCancel(context.Background())
+	s.StdRules, err = standardrules.New(rulesCtx,
 		standardrules.WithStoragePath(s.Opts.StorageDir),
 		standardrules.WithAdminIPs(s.Opts.AdminIPs))
 	if err != nil {
@@ -261,7 +266,11 @@ func (s *Stack) buildSigner() error {
 
 // CloseRules closes the slashing-protection database.
 func (s *Stack) CloseRules() error {
-	return s.StdRules.Close(context.Background())
+	err := s.StdRules.Close(context.Background())
+	if s.rulesStop != nil {
+		s.rulesStop()
+	}
+	return err
 }
 
 // Restart closes the slashing-protection database and reopens the same directory,
